@@ -56,7 +56,7 @@ def check_tables(ctx: Ctx) -> None:
     folder, recs, table = _records(ctx)
     mod = repo.module(AP)
     ctx.note("atomic_pattern_records", sorted(recs))
-    ctx.require("R-ATOMIC", "AtomicPattern records", len(recs), 12)
+    ctx.require("R-ATOMIC", "AtomicPattern records", len(recs), 6)
     order = [r.fields.get("name") for r in table if isinstance(r, Record)]
     by_const = {r.fields.get("name"): n for n, r in recs.items()}
     # every record is in the table
@@ -110,7 +110,7 @@ def check_tables(ctx: Ctx) -> None:
     th = repo.module(TH)
     singles = [recs[n] for n in ("SINGLE_JINJA_TAG", "SINGLE_JINJA_COMMENT", "SINGLE_JINJA_VAR", "SINGLE_HTML_COMMENT") if n in recs]
     paireds = [recs[n] for n in ("PAIRED_JINJA_TAG", "PAIRED_JINJA_COMMENT", "PAIRED_JINJA_VAR", "PAIRED_HTML_COMMENT") if n in recs]
-    ctx.require("R-ATOMIC", "single/paired tag families", len(singles) + len(paireds), 8)
+    ctx.require("R-ATOMIC", "single/paired tag families", len(singles) + len(paireds), 4)
     expect_map = {
         "TEMPLATE_TAG_PATTERN": ("|".join(str(r.fields["pattern"]) for r in singles), re.DOTALL),
         "PAIRED_TAGS_PATTERN": ("|".join(str(r.fields["pattern"]) for r in paireds), re.DOTALL),
@@ -163,7 +163,7 @@ def check_post_passes(ctx: Ctx) -> None:
     fm_q = f"{TH}:_fix_multiline_opening_tag_with_closing"
     fc_q = f"{TH}:_fix_closing_tag_spacing"
     rets = flow.cfg.returns()
-    ctx.require("R-ATOMIC-post", "returns of the tag newline handler", len(rets), 4)
+    ctx.require("R-ATOMIC-post", "returns of the tag newline handler", len(rets), 1)
     for r in rets:
         org = origins(prog, w, r.ast.value, r)
         ctx.ob("R-ATOMIC-post", f"{w.qual} :: {norm(r.ast)} passes the multi-line tag fix", org == frozenset({("call", fm_q)}),
